@@ -82,6 +82,7 @@ type Eval struct {
 	point *progPoint
 	depth int
 	inOld bool
+	loopOld *State // state at entry of the loop whose invariant is being evaluated (lold)
 }
 
 func (ex *Exec) newEval(st, old *State) *Eval {
@@ -403,6 +404,25 @@ func (ev *Eval) ident(name string) TV {
 	if ev.point != nil {
 		if tv, ok := ev.ex.resolveLocal(name, ev.point, ev.st); ok {
 			return tv
+		}
+	}
+	// captured variable of a closure: the current content of the shared cell
+	if ev.ex.parent == nil {
+		for _, fv := range ev.ex.fn.FreeVars {
+			if fv.Name() != name {
+				continue
+			}
+			v, ok := ev.ex.vals[fv]
+			if !ok {
+				break
+			}
+			if pt, ok := ev.ex.typ(fv.Type()).Underlying().(*types.Pointer); ok {
+				if isAggregate(pt.Elem()) {
+					return TV{T: v.T, Ty: goVT(pt.Elem()), Addr: true}
+				}
+				return TV{T: ev.ex.loadAt(ev.state(), v.T, pt.Elem()), Ty: goVT(pt.Elem())}
+			}
+			return TV{T: v.T, Ty: goVT(ev.ex.typ(fv.Type()))}
 		}
 	}
 	// package-level object
@@ -735,6 +755,15 @@ func (ev *Eval) call(e ECall) TV {
 		}
 		ev.errorf("deref of non-pointer")
 		return TV{T: "0", Ty: vtInt}
+	case "lold":
+		// value of an expression in the state at entry of the enclosing loop (invariants only)
+		if ev.loopOld == nil {
+			ev.errorf("lold() outside a loop invariant")
+			return TV{T: "0", Ty: vtInt}
+		}
+		sub := *ev
+		sub.st = ev.loopOld
+		return sub.eval(e.Args[0])
 	case "param":
 		if id, ok := e.Args[0].(EIdent); ok {
 			if v, ok := ev.params[id.Name]; ok {
@@ -1161,19 +1190,34 @@ func (ex *Exec) resolveLocal(name string, pt *progPoint, st *State) (TV, bool) {
 			}
 		}
 	}
-	if name == "$i" {
-		// anonymous range index: the value rangeindex+1 computed in a loop header
+	if name == "$i" || (strings.HasPrefix(name, "$i") && len(name) > 2) {
+		// anonymous range index: the value rangeindex+1 computed in a loop header. $i = innermost enclosing
+		// range loop, $i<N> = the range loop with ordinal N.
+		want := 0
+		if len(name) > 2 {
+			fmt.Sscanf(name[2:], "%d", &want)
+		}
+		var bestL *Loop
+		var bestV ssa.Value
 		for _, l := range ex.loops {
+			if want > 0 && l.Ordinal != want {
+				continue
+			}
 			if l.Header == pt.block || l.Blocks[pt.block] {
 				for _, ins := range l.Header.Instrs {
 					if b, ok := ins.(*ssa.BinOp); ok {
 						if p, ok := b.X.(*ssa.Phi); ok && p.Comment == "rangeindex" {
-							v := ex.val(b)
-							return TV{T: v.T, Ty: vtInt}, true
+							if bestL == nil || len(l.Blocks) < len(bestL.Blocks) {
+								bestL, bestV = l, b
+							}
 						}
 					}
 				}
 			}
+		}
+		if bestL != nil {
+			v := ex.val(bestV)
+			return TV{T: v.T, Ty: vtInt}, true
 		}
 	}
 	// order candidates by the position where their value is defined (a DebugRef for a later use of the
@@ -1215,6 +1259,9 @@ func (ex *Exec) resolveLocal(name string, pt *progPoint, st *State) (TV, bool) {
 	if best.alloc {
 		al := best.v.(*ssa.Alloc)
 		pt := ex.typ(al.Type()).(*types.Pointer).Elem()
+		if l := ex.val(al).Loc; l != nil {
+			return TV{T: ex.loadLocNoPerm(st, l), Ty: goVT(pt)}, true
+		}
 		ref := ex.val(al).T
 		if isAggregate(pt) {
 			return TV{T: ref, Ty: goVT(pt), Addr: true}, true
